@@ -52,6 +52,8 @@ void sim_scope_leave();
 void sim_yield_point(int kind);           // semantic yield point (user callbacks)
 void sim_status_run(uint64_t run, uint64_t phase, uint64_t fop, uint64_t falloc); // crash-attribution words (mmap'd status file)
 void sim_status_op(uint64_t op);
+void sim_status_flag(uint64_t flag);         // context flags for crash attribution (1 = a clipper holds the same container twice)
+void sim_limit_op_budget(uint64_t edges);    // lower the hang budget for the rest of this execution (known-divergent situations)
 }
 
 void rt_init(const char* status_path);
